@@ -135,6 +135,21 @@ func (k Keeper) CalculateBatchAllocation(ctx context.Context, auction types.Auct
 		mInfo.RefundMap[bidder] = reservedAmtByBidder[bidder].Sub(bidderRes.PayingAmount)
 	}
 
+	// A bid flagged as matched at a previous end time that is not matched anymore
+	// (it has been outbid during an extended round) must lose the flag.
+	matchedBidIds := map[uint64]struct{}{}
+	for _, bid := range matchRes.MatchedBids {
+		matchedBidIds[bid.Id] = struct{}{}
+	}
+	for _, bid := range bids {
+		if _, ok := matchedBidIds[bid.Id]; !ok && bid.IsMatched {
+			bid.SetMatched(false)
+			if err := k.Bid.Set(ctx, collections.Join(bid.AuctionId, bid.Id), bid); err != nil {
+				return mInfo, err
+			}
+		}
+	}
+
 	for _, bid := range matchRes.MatchedBids {
 		bid.SetMatched(true)
 		if err := k.Bid.Set(ctx, collections.Join(bid.AuctionId, bid.Id), bid); err != nil {
